@@ -23,11 +23,14 @@ LEVEL_TEXT = ("the TUM, KITTI and EuRoC readers are verified against the publish
 LEVEL_NOTE = ("csv_read_matrix (text, csv module, BOM) is an assumed contract exercised by the bounded stand-in; numpy "
               "conversion trusted; widths enumerated (7/8/9, 11/12/13, 7/8/17 columns)")
 SIDECARS = ["contracts.lie_algebra", "contracts.geometry", "contracts.filters", "contracts.umeyama", "contracts.trajectory",
-            "contracts.overwrite", "contracts.fileio"]
-OVERRIDES = _ow.OVERRIDES
+            "contracts.overwrite", "contracts.fileio", "contracts.quaternion"]
+from contracts import quaternion as _qt
+OVERRIDES = dict(_ow.OVERRIDES, json=_qt.JSON)
 FI = "evo.tools.file_interface."
 FUNCTIONS = [FI + "read_tum_trajectory_file", FI + "read_kitti_poses_file", FI + "read_euroc_csv_trajectory",
-             FI + "write_tum_trajectory_file", FI + "write_kitti_poses_file"]
+             FI + "write_tum_trajectory_file", FI + "write_kitti_poses_file",
+             "evo.core.transformations.quaternion_matrix", "evo.core.trajectory.xyz_quat_wxyz_to_se3_poses",
+             FI + "load_transform_json"]
 LEMMAS = []
 TRUSTED = ["numpy.array(rows).astype(float): ValueError iff ragged or non-numeric, else float() per token",
            "numpy.savetxt: line i = row i formatted with fmt, joined by the delimiter"]
